@@ -20,7 +20,9 @@ verify)
 check)
   id="$3"; shift 3
   git -C /repo apply "$dir/mutant.diff" || exit 2
+  cp /verif/evidence/$id.json /tmp/evidence_$id.json.keep 2>/dev/null   # the committed evidence describes the unchanged tree
   (cd /verif && ./check "$id" "$@" 2>&1 | grep -v "^\[.*unsat in\|^\[.*sat in" | tail -6)
+  mv /tmp/evidence_$id.json.keep /verif/evidence/$id.json 2>/dev/null
   git -C /repo checkout -- .
   git -C /repo status --short
   ;;
